@@ -78,6 +78,29 @@ CLAIMS = {
                 note="constructor arguments of inferred variables (C11) are outside this check; T1, T3 tree-shape assumptions"),
 }
 CLAIMS.update({
+    'C10': dict(level='other', text="ForAll._evaluate__ (every iteration, no bound): only true rows of the condition are collected, each "
+                "restricted to exactly the condition's own non-literal, non-universal variables; every emitted row is a collected "
+                "binding merged with the incoming sources; ForAll._required_variables_from_child_ contains the parent's answer "
+                "and the universal variable (results for different universal values are not duplicates of each other). The "
+                "running intersection over Python lists / sets of dicts is outside the executor's dict model and is covered by "
+                "the bounded stand-in only.",
+                note="level other: the intersection logic (seed on the first value, intersect afterwards, stop when empty) is "
+                     "bounded (native oracle, random small scope), not proved"),
+    'C17': dict(level=P, text="Concatenate._evaluate__: when not already bound, exactly one row, emitted after the child's stream "
+                "is exhausted, whose value is CAT(n) = the concatenation in stream order of unwrap(value of the child's i-th "
+                "row) (loop invariant acc == CAT(i), one-step unfolding; a non-iterable is a singleton); nothing but extend "
+                "writes the result list. in_ / contains build Comparator(container, item, operator.contains); its negation is "
+                "the not_contains arm of the inverse table (C03 contracts).",
+                note="the order of the child's rows is the child's stream order (domain order by the interface, A9); z3 "
+                     "sequence theory is used only for concat-congruence"),
+    'C18': dict(level=P, text="Every constructor a rewrite goes through returns a node with the intended meaning: the six "
+                "comparison dunders build Comparator(self, other, <the operator Python evaluates>) (so a mirrored comparison "
+                "means the same), in_ / contains build the same membership comparator, chained_logic combines every condition "
+                "exactly once (in any nesting), _extract_variables_and_expression conjoins all conditions. With AND / ElseIf "
+                "proved against Den = and / or (C01/C02), Den is invariant under the listed rewrites, and the result set is a "
+                "function of Den and the domains as sets.",
+                note="Union is never built by or_ on this tree (see DESIGN); IndexedCache.keys sorting is trusted (sorted); the "
+                     "bounded metamorphic stand-in exercises all eight rewrites natively"),
     'C07': dict(level=P, text="(i) An.evaluate is a generator function and its first statement that does any work runs inside "
                 "the first next(); (ii) HashedIterable.__iter__ replays the memo, then pulls the user's iterator one element "
                 "per loop iteration, memoises each element before yielding it, yields it exactly once and skips an element "
@@ -154,6 +177,14 @@ ORACLES = {
             _oracle('the(entity) as a comparison operand, correlated with the enclosing query', 100, 1500, kind='the_operand')],
     'C07': [_oracle('one-shot iterator domains: pulls per result, nothing pulled twice (cache on)', 200, 3000, kind='lazy'),
             _oracle('one-shot iterator domains (cache off)', 100, 1500, kind='lazy', caching=False)],
+    'C10': [_oracle('for_all over conditions mentioning the universal variable, the free variables, both or neither', 250, 4000, kind='forall'),
+            _oracle('for_all, result cache off', 100, 1500, kind='forall', caching=False)],
+    'C17': [_oracle('concatenate value and membership / negated membership against it', 200, 3000, kind='concat'),
+            _oracle('concatenate with falsy elements', 100, 1500, kind='concat', falsy=True)],
+    'C18': [_oracle('meaning preserving rewrites (swap, re-associate, mirror, contains/in_, declaration order, domain permutation)', 250, 4000, kind='rewrite')],
+    'C11': [_oracle('infer(entity(T(f1=e1, f2=e2), conditions)) in rule mode', 200, 3000, kind='infer')],
+    'C12': [_oracle('rule trees: refinement / alternative nested two levels, six shapes', 250, 4000, kind='rdr')],
+    'C14': [_oracle('registry histories: concrete / symbolic construction, clearing, no-domain queries', 200, 3000, kind='registry')],
     'C13': [_oracle('predicate form vs explicit query, mixed-type domains, positional and keyword fields', 250, 4000, kind='predform', allow_empty=True)],
     'C04': [_oracle('histories of full / partial / aborted evaluations (result cache on)', 200, 3000, kind='history'),
             _oracle('histories (result cache off)', 100, 1500, kind='history', caching=False),
